@@ -287,6 +287,9 @@ def _unroll_block(stmts, lits, static: bool = False):
             seq = _static_seq(st.value, lits) if static else _literal_seq(st.value)
             if seq is not None and all(_pure(e, lambdas=True) for e in seq.elts) and st.targets[0].id not in set().union(*[_loaded(e) for e in seq.elts], set()):
                 lits[st.targets[0].id] = seq
+                if static and isinstance(st.value, ast.ListComp):
+                    # a list comprehension over a literal table IS the list of its substituted elements
+                    st.value = ast.fix_missing_locations(ast.copy_location(ast.List(elts=[copy.deepcopy(e) for e in seq.elts], ctx=ast.Load()), st.value))
         out.append(st)
     return out
 
@@ -1345,6 +1348,8 @@ class _Fold(ast.NodeTransformer):
         if name == "len" and len(n.args) == 1 and not n.keywords and (_plain_seq(n.args[0]) or (isinstance(n.args[0], ast.Dict) and None not in n.args[0].keys)):
             a = n.args[0]
             return ast.copy_location(ast.Constant(value=len(a.keys if isinstance(a, ast.Dict) else a.elts)), n)
+        if name == "len" and len(n.args) == 1 and not n.keywords and isinstance(n.args[0], ast.Constant) and isinstance(n.args[0].value, (str, bytes)):
+            return ast.copy_location(ast.Constant(value=len(n.args[0].value)), n)
         if name == "sum" and len(n.args) == 1 and not n.keywords and _plain_seq(n.args[0]) and all(_int(x) for x in n.args[0].elts):
             return ast.copy_location(ast.Constant(value=sum(x.value for x in n.args[0].elts)), n)
         if name in ("reduce", "functools.reduce") and len(n.args) in (2, 3) and not n.keywords and _plain_seq(n.args[1]) \
